@@ -561,9 +561,16 @@ class EGen:
         a = self.pred(labels, depth - 1, pure)
         b = self.pred(labels, depth - 1, pure)
         op = rng.choice(["and", "or"])
-        # the parser nests and/or to the right: `x op1 y op2 z` = x op1 (y op2 z); a binary left operand is parenthesised
-        if a["k"] == "bin":
-            a = {"k": "par", "a": a, "coq": a["coq"], "pure": a.get("pure")}
+        par = lambda x: {"k": "par", "a": x, "coq": x["coq"], "pure": x.get("pure")}
+        # `and` binds tighter than `or` (D34), chains of one operator nest to the right: x and y or z = (x and y) or z,
+        # x or y and z = x or (y and z), x op y op z = x op (y op z).  Operands that would read otherwise are parenthesised.
+        if op == "and":
+            if a["k"] == "bin":
+                a = par(a)
+            if b["k"] == "bin" and b["op"] == "or":
+                b = par(b)
+        elif a["k"] == "bin" and (a["op"] == "or" or rng.random() < 0.4):
+            a = par(a)          # an and-chain may stand unparenthesised on the left of `or`
         return {"k": "bin", "op": op, "a": a, "b": b, "coq": "%s (%s) (%s)" % ("EPAnd" if op == "and" else "EPOr", a["coq"], b["coq"]),
                 "pure": a.get("pure") and b.get("pure")}
 
